@@ -224,3 +224,10 @@ Definition pol_of (lay : policy) (p : wprog) : policy :=
      req_cell := requires FCell p; req_time := requires FTime p;
      store_time := store_time lay; store_cell := store_cell lay;
      time_index_default := time_index_default lay; zero_box := zero_box lay |}.
+
+(* what a frame record stores, as far as it can be read off the source of write(): its signature has a time / a cell
+   parameter, and `if time is None: time = np.arange(n_frames)` (the default time is the index within the call).
+   The translator emits these facts per format; they must agree with the layout table the theorems use. *)
+Definition layout_agrees (lay : policy) (f : bool * bool * bool) : bool :=
+  let '(st, sc, tid) := f in
+  Bool.eqb (store_time lay) st && Bool.eqb (store_cell lay) sc && Bool.eqb (time_index_default lay) tid.
